@@ -308,7 +308,7 @@ func TestC22(t *testing.T) {
 		"with/without names, RecursiveKeys/DirectKeys plain/detailed) and a full sweep at the end; non-trivial = at least 6 operations, at " +
 		"least one failed call and at least one indirect answer; distinct by the event list")
 	cs := vh.NewCases(e, "From V Require Import lib.PinModel model.M_C22.\nOpen Scope N_scope.", "case", "check_case", 50)
-	nHist := e.Pick(350, 6000)
+	nHist := e.Pick(350, 3000)
 	corp := corpus()
 	for h := 0; h < nHist; h++ {
 		var hs hist
